@@ -370,6 +370,29 @@ def world_pts_to_cube(w: Tensor, grid: Grid) -> Tensor:
     return torch.stack([((idx[..., i] + (0.0 if ac else 0.5)) / cube_scale(size[i], ac) - 1) for i in range(D)], dim=-1)
 
 
+def ref_expv(v: Tensor, scale: float, steps: int, align_corners: bool) -> Tensor:
+    """Scaling and squaring with plain torch (no deepali code): disp <- disp + disp(x + disp), ``steps`` times, linear
+    interpolation, border extrapolation, normalised coordinates of the given convention."""
+    import torch.nn.functional as F_
+
+    D = v.shape[1]
+    shape = v.shape[2:]  # (..., X)
+    axes = []
+    for n in reversed(shape):  # x first
+        n = int(n)
+        if align_corners:
+            axes.append(torch.linspace(-1.0, 1.0, n, dtype=v.dtype) if n > 1 else torch.zeros(1, dtype=v.dtype))
+        else:
+            axes.append((torch.arange(n, dtype=v.dtype) * 2 + 1) / n - 1)
+    mesh = torch.meshgrid(*reversed(axes), indexing="ij")  # (..., X) order
+    coords = torch.stack(list(reversed(mesh)), dim=-1).unsqueeze(0)  # (1, ..., X, D) with x first in the last axis
+    disp = v * (scale / 2**steps)
+    for _ in range(steps):
+        x = coords + disp.movedim(1, -1)
+        disp = disp + F_.grid_sample(disp, x.expand(disp.shape[0], *x.shape[1:]), mode="bilinear", padding_mode="border", align_corners=align_corners)
+    return disp
+
+
 def sample_field(field: Tensor, pts: Tensor, align_corners: bool) -> Tensor:
     """Sample field (N, D, *shape) at cube points (N, M, D) with plain torch; returns (N, M, D)."""
     N, D = field.shape[0], field.shape[1]
@@ -1377,6 +1400,19 @@ class _Ops:
             out.violations.append(self.viol("C09", "twin-failed", x, which, self.exc_detail(dt)))
             return out
         ok, err = close(d, dt)
+        t_ = x.obj
+        if ok and which == "disp" and g is None and cname(t_) == "StationaryVelocityFieldTransform" and kind_of(t_) in ("P", "B") \
+                and all(int(s_) == 1 for s_ in t_.stride) and int(t_.exp.steps) >= 1:
+            # the twin is built by the same code in the same process: a reference that shares no code with the library
+            # (and no process-level state) for the one model whose displacement is a closed algorithm of its parameters
+            st3, ref = self.guarded(lambda: ref_expv(t_.params.detach(), float(t_.exp.scale), int(t_.exp.steps), bool(t_.grid().align_corners())))
+            if st3 == "ok" and tuple(ref.shape) == tuple(d.shape):
+                self.c["checks"]["disp_vs_independent_scaling_and_squaring"] += 1
+                ok2, err2 = close(d, ref, atol=2e-4, rtol=1e-3)
+                if not ok2:
+                    out.violations.append(self.viol("C09", "stale-obs", x, self.last_change.get(id(t_), "-"), {"max_err": err2, "against": "independent scaling and squaring of the parameters the transform holds", "observed_through": which}))
+                    out.violations[-1].sig = f"disp-not-exp-of-parameters/{self.last_change.get(id(t_), '-')}/dense/{kind_of(t_)}"
+                    return out
         label = "call_nohook" if which == "call" else which
         self.c["checks"][label + "_vs_twin"] += 1
         if id(x.obj) in self.fresh_changed:
